@@ -9,6 +9,7 @@ CONSTANTS
   Orders = {"fwd"}
   PageSize = 50
   MinSpans = 2
+  MinEntries = 0
   ResolveInTrace = TRUE
 CONSTRAINT EmitForest
 CHECK_DEADLOCK FALSE
